@@ -1425,4 +1425,75 @@ def session : List Stage → List Table → List TableOut
   | _, [] => []
   | fs, t :: ts => (runTable fs t).1 :: session (runTable fs t).2 ts
 
+/-! ## Phase 4: exception CLASSES (IndexError / KeyError / TypeError / ValueError / AttributeError), not only "raises" -/
+
+/-- the class of the exception a result carries (`none`: no exception) -/
+def errOf {α} : Res α → Option Err
+  | .ok _ => none
+  | .error e => some e
+
+/-- the exception class the lazy dense row raises on the access (`none`: it does not raise) -/
+def errD (r : DRow) : Acc → Option Err
+  | .pos i => errOf (r.getPos i)
+  | .name k => errOf (r.get k)
+  | .iter => errOf r.iter
+  | .copy => errOf r.iter
+  | .headers => errOf r.headers
+  | .label => errOf r.labelVal
+  | .tipe => errOf r.tipe
+  | .feats sub => match r.feats with | .ok f => errD f sub | .error e => some e
+  | .clone sub => errD r sub
+  | _ => none
+
+/-- the exception class the lazy sparse row raises on the access -/
+def errS (r : SRow) : Acc → Option Err
+  | .name k => errOf (r.get k)
+  | .iter => errOf r.keys
+  | .keys => errOf r.keys
+  | .items => errOf r.items
+  | .copy => errOf r.items
+  | .len => errOf r.len
+  | .label => errOf r.labelVal
+  | .tipe => errOf r.tipe
+  | .feats sub => match r.feats with | .ok f => errS f sub | .error e => some e
+  | .clone sub => errS r sub
+  | _ => none
+
+/-- what a plain Python list raises: `l[i]` beyond the end is an IndexError; iteration, `len`, `==`, copying never raise -/
+def eagerErrD (e : EagerD) : Acc → Option Err
+  | .pos i => if i < e.cells.length then none else some .indexError
+  | .clone sub => eagerErrD e sub
+  | _ => none
+
+/-- what a plain Python dict raises: `d[k]` for an absent key is a KeyError; keys / items / len / copy never raise -/
+def eagerErrS (e : EagerS) : Acc → Option Err
+  | .name k => match dget e.d k with | some _ => none | none => some .keyError
+  | .clone sub => eagerErrS e sub
+  | _ => none
+
+/-- the accesses a plain list answers (or refuses) by itself: position, iteration, copy, len, ==, and copies thereof -/
+def Acc.listAccess : Acc → Bool
+  | .pos _ | .iter | .copy | .len | .eq _ => true
+  | .clone sub => sub.listAccess
+  | _ => false
+
+/-- the accesses a plain dict answers (or refuses) by itself, by-key access restricted to keys satisfying `P` -/
+def Acc.dictAccess (P : Key → Prop) : Acc → Prop
+  | .name k => P k
+  | .iter | .keys | .items | .copy | .len | .eq _ => True
+  | .clone sub => sub.dictAccess P
+  | _ => False
+
+/-- the public protocol of the row-view classes that the access language `Acc` (plus the attribute forwarding of
+`missing`) covers: every public method / property a row-view class of coba/pipes/rows.py may define.  The translator
+(`Generated/C13Methods.lean`) extracts what the classes DO define; `methods_covered` proves the two lists are equal.
+`__getitem__` = `Acc.pos`/`Acc.name`, `__iter__` = `.iter`, `__len__` = `.len`, `__eq__` = `.eq`, `copy` = `.copy`, `keys`/`items` = `.keys`/`.items`,
+`headers` = `.headers` (and `missing`: both reached through `__getattr__`, the attribute forwarding `DRow.headers`/`missing`), `feats` = `.feats`,
+`label` = `.label`, `tipe` = `.tipe`, `labeled` = the triple of the three, `__init__` = the constructors of `DRow`/`SRow`. -/
+def coveredMethods : List String :=
+  ["__eq__", "__getattr__", "__getitem__", "__init__", "__iter__", "__len__", "copy", "feats", "headers", "items", "keys",
+   "label", "labeled", "tipe"]
+
+def allCovered (ms : List String) : Bool := ms.all (fun m => coveredMethods.contains m)
+
 end Coba.C13
